@@ -26,11 +26,13 @@ Section Watch.
 
   (* the word [name], looked up in [s], is a user-defined immediate word (it would run
      arbitrary code in the outer context at build time), or it is [const] about to overwrite
-     a constant that existed before the source was submitted *)
+     a constant that existed before the source was submitted, or [endenum] whose block returns
+     to a context that is not a meta context (finding E3), or a field word of an enum that is
+     not pending in a meta context ([native_bad], UnwindBuild.v) *)
   Definition bad_word (s : state) (name : string) : bool :=
     match dict_entry s name with
     | Some (DFun true (FInterp _) _) => true
-    | Some (DFun true (FNative w) _) => String.eqb w "const"%string && const_clobbers pr dl s
+    | Some (DFun true (FNative w) _) => native_bad fo pr rf dl w s
     | _ => false
     end.
 
@@ -75,7 +77,7 @@ Section Loop.
   Local Notation binv := (binv b m).
   Local Notation dl := (length (dict b)).
 
-  Lemma build_word_inv f name t : binv t -> quiet t -> bad_word pr dl t name = false ->
+  Lemma build_word_inv f name t : binv t -> quiet t -> bad_word fo pr rf dl t name = false ->
     res_all binv (build_word fo pr rf f name t).
   Proof.
     intros H Q BW. unfold build_word, bind, get. unfold bad_word in BW.
@@ -85,7 +87,7 @@ Section Loop.
     - destruct fr as [x|w]; [discriminate|]. unfold run_immediate.
       destruct (immediate_fn fo pr rf f w) as [prog|] eqn:E; [|exact I].
       pose proof (bp_immediate_fn fo pr rf b m Hm Hdl f w prog E) as X.
-      apply X; [exact H|exact Q|]. intros ->. cbn in BW. exact BW.
+      apply X; [exact H|exact Q|exact BW].
     - destruct fr; apply (bp_code_emit b m); exact H.
   Qed.
 
@@ -137,7 +139,7 @@ Section Loop.
       unfold bind, get. destruct (negb _); [exact H1|]. destruct (has_pending_flow t1); exact H1.
     - (* a word *)
       unfold bind at 1. unfold get.
-      assert (W : (bad_word pr dl t1 name ||
+      assert (W : (bad_word fo pr rf dl t1 name ||
                    match build_word fo pr rf f name t1 with ROk _ s2 => calls_bad fo pr rf dl f depth s2 | _ => false end) = false ->
                   res_all binv ((build_word fo pr rf f name;; build1 fo pr rf f depth) t1)).
       { intros CW. apply orb_false_iff in CW. destruct CW as [C1 C2].
